@@ -38,9 +38,11 @@ CLAIMED = {
         technique="Coq invariant proofs over an LTS model + trace acceptance of the real producer under deterministic simulation",
         design="5/C01"),
     "C02": dict(
-        text="Machine-checked proof (Coq 8.16): MessageBatch.done/done_noack/failure as functions (per-record offset, "
-             "timestamp, timestamp type; resolved futures untouched; acks=0 carries no metadata) tied to the real methods "
-             "by differential evaluation on every run; over the batch life-cycle model every accepted record is resolved at "
+        text="Machine-checked proof (Coq 8.16): MessageBatch.done/done_noack/failure are translated from "
+             "aiokafka/producer/message_accumulator.py on every run (translator/units_c02.py -> gen/DoneGen.v) and proved equal, "
+             "for every input, to the functions the statements are about (per-record offset, timestamp, timestamp type; "
+             "resolved futures untouched; acks=0 carries no metadata; the batch future gets the base offset), and also run "
+             "differentially against the real methods; over the batch life-cycle model every accepted record is resolved at "
              "most once, flush()/stop() can return only when everything accepted is resolved, with idempotence retriable "
              "faults never fail a record, and a fault-free sender round resolves the head batch (liveness as rounds: partial). "
              "The Produce-response dispatch (handle_response, _can_retry, the retriable/invalid_metadata attributes of "
@@ -49,11 +51,12 @@ CLAIMED = {
              "The real producer runs under the simulator (acks 0/1/all, produce v0..v7, CreateTime/LogAppendTime, flush/stop at "
              "arbitrary times, fault schedules followed by quiet) with monitors comparing every future's metadata with the "
              "record sitting at that offset in the simulated log.",
-        note="Trusted: Coq kernel; hand models tied by differential testing / trace acceptance; simulated cluster and the "
+        note="Trusted: Coq kernel; the fail-closed translators (done/done_noack/failure, Produce dispatch, sequence increment); "
+             "the life-cycle model tied by trace acceptance; simulated cluster and the "
              "independent reference record reader as oracle; 'bounded time' is virtual time in the simulator and rounds in "
              "the model. No axioms.",
-        technique="Coq proofs over function and LTS models + differential testing and deterministic simulation of the real producer",
-        design="5/C02"),
+        technique="Coq proofs over source-translated functions and an LTS model + differential testing and deterministic simulation of the real producer",
+        design="5/C02, 9.3"),
     "C04": dict(
         text="Machine-checked proof (Coq 8.16) over a per-partition model of the coordinator's committed offset, the "
              "successive owner incarnations (start = committed else log start, position, alive) and the set of offsets "
